@@ -439,3 +439,77 @@ Theorem dispatched_request_is_advertised : forall iss mtls p opts pc mt x e, bui
   | None => e = EpWellKnown end.
 Proof. exact dispatched_is_advertised. Qed.
 Print Assumptions dispatched_request_is_advertised.
+
+(* ==== dynamic client registration: the run-time gate of internal/dcr/validation.go against the lists
+   the document publishes (Model/DcrGate.v, Proofs/C19DcrProofs.v) ====
+   `reg` = the members of goidc.ClientMetaInfo the 35 validators read; `dcr_validate c2 r` = `validate`
+   (the conjunction of the validators, each transcribed guard by guard, reading the SAME fields of
+   config2 that Discovery2's document members read); `dmember` = the 21 string-valued metadata members
+   that are checked against a list (the three <endpoint>_endpoint_auth_method and _auth_signing_alg,
+   the five signing, four key-encryption, four content-encryption algorithm members, subject_type,
+   backchannel_token_delivery_mode), `set_member m v r` = r with member m set to v, `side_ok m r` =
+   what else validation.go reads once m is set (a JWKS next to a JWT-based method, a key algorithm
+   next to a content algorithm ...).  For EVERY config2, every member, every value and every
+   otherwise valid registration: *)
+From Verif Require Import DcrGate C19DcrProofs.
+
+(* the registration is accepted whatever the value where the validator's own guard is off
+   (`if !ctx.XIsEnabled { return nil }`), accepted iff the value is ADVERTISED for that member where
+   the document publishes the member's list, and accepted iff it is in the configured list where the
+   validator is active under a wider guard than the document's *)
+Theorem dcr_alg_accepted_iff_advertised : forall c2 m v r,
+  is_empty v = false -> side_ok m r = true -> dcr_validate c2 (set_member m "" r) = true ->
+  dcr_validate c2 (set_member m v r) =
+  (if negb (dcr_checked c2 m r) then true
+   else if doc_publishes c2 m then dcr_advertised c2 m r v
+   else dcr_configured c2 m r v).
+Proof. exact accepted_iff_expected. Qed.
+Print Assumptions dcr_alg_accepted_iff_advertised.
+
+Theorem dcr_alg_accepted_iff_advertised_when_published : forall c2 m v r,
+  is_empty v = false -> side_ok m r = true -> dcr_validate c2 (set_member m "" r) = true ->
+  dcr_checked c2 m r = true -> doc_publishes c2 m = true ->
+  dcr_validate c2 (set_member m v r) = dcr_advertised c2 m r v.
+Proof. exact published_accepted_iff_advertised. Qed.
+Print Assumptions dcr_alg_accepted_iff_advertised_when_published.
+
+(* id_token_signed_response_alg, userinfo_signed_response_alg, token_endpoint_auth_method: no guard in
+   the validator, the list always in the document - accepted iff in the list of THAT member (what
+   checking userinfo_signed_response_alg against the ID token list violates) *)
+Theorem dcr_alg_accepted_iff_advertised_unguarded : forall c2 v r, is_empty v = false ->
+  (dcr_validate c2 (set_member DIdtSig "" r) = true ->
+   dcr_validate c2 (set_member DIdtSig v r) = l_advertised_in c2 LIdtSig v) /\
+  (dcr_validate c2 (set_member DUiSig "" r) = true ->
+   dcr_validate c2 (set_member DUiSig v r) = l_advertised_in c2 LUiSig v) /\
+  (side_ok (DMethod AToken) r = true -> dcr_validate c2 (set_member (DMethod AToken) "" r) = true ->
+   dcr_validate c2 (set_member (DMethod AToken) v r) = l_advertised_in c2 LTokenMethods v).
+Proof. exact unguarded_accepted_iff_advertised. Qed.
+Print Assumptions dcr_alg_accepted_iff_advertised_unguarded.
+
+(* a disabled feature: the member is accepted whatever its value (and the document publishes no list) *)
+Theorem dcr_alg_of_disabled_feature_accepted : forall c2 m v r,
+  is_empty v = false -> side_ok m r = true -> dcr_validate c2 (set_member m "" r) = true ->
+  dcr_checked c2 m r = false -> dcr_validate c2 (set_member m v r) = true.
+Proof. exact unchecked_accepted. Qed.
+Print Assumptions dcr_alg_of_disabled_feature_accepted.
+
+(* for ALL option lists: a registration is accepted for a value of a list the document does not
+   publish, the validator being active, ONLY for the JAR encryption members when JAR itself is off
+   (WithJAREncryption without WithJAR) and for the CIBA request-object algorithm when CIBA is off
+   (WithCIBAJAR without WithCIBAGrant) *)
+Theorem dcr_unpublished_acceptance : forall p opts c2 m v r, build2 p opts = Some c2 ->
+  is_empty v = false -> side_ok m r = true -> dcr_validate c2 (set_member m "" r) = true ->
+  dcr_checked c2 m r = true -> doc_publishes c2 m = false ->
+  dcr_validate c2 (set_member m v r) = true ->
+  ((m = DJarKey \/ m = DJarCenc) /\ cf_jar_enabled (c2_base c2) = false /\ l_jar_enc (c2_lists c2) = true) \/
+  (m = DCibaJarSig /\ cf_ciba_enabled (c2_base c2) = false /\ cf_ciba_jar_enabled (c2_base c2) = true).
+Proof. exact unpublished_acceptance. Qed.
+Print Assumptions dcr_unpublished_acceptance.
+
+(* the list-valued members: adding a grant type / response type / scope to a valid registration is
+   accepted iff grant_types_supported / response_types_supported / scopes_supported lists it *)
+Theorem dcr_listed_value_accepted_iff_advertised : forall c2 l v r,
+  dcr_validate c2 r = true -> lside_ok l v r = true ->
+  dcr_validate c2 (add_value l v r) = dlist_advertised c2 l v.
+Proof. exact listed_value_accepted. Qed.
+Print Assumptions dcr_listed_value_accepted_iff_advertised.
